@@ -539,7 +539,9 @@ def run_staged_faults(ctx):
         cases.append(dict(kind="staged", pre=pre, dests=dests, fail=fail, post=rng.randint(0, 3)))
     nviol = 0
     for case in cases:
+        ctx.running(case, "the first add_destinations call (or a logging call around it)")
         obs = run_staged(case)
+        ctx.running(None)
         during = [c for c in case["fail"] if c < case["pre"]]
         ctx.case(case, nontrivial=case["pre"] >= 1 and (bool(during) or "R" in case["dests"]),
                  tags=["staged:pre:%d" % min(case["pre"], 5), "staged:fails-during-hand-over:%d" % len(during),
